@@ -756,8 +756,11 @@ def r_default_oob(m, rnd):
             tag = 'min_length'
         elif rt.name == 'String' and rt.args.get('pattern'):
             from .model import PATTERNS
-            bad = [p for p in PATTERNS if p[0] == rt.args['pattern']][0][3][0]
-            tag = 'pattern'
+            pp = [p for p in PATTERNS if p[0] == rt.args['pattern']][0]
+            if rnd.random() < 0.5:
+                bad, tag = pp[3][0], 'pattern'
+            else:
+                bad, tag = rnd.choice(pp[2]), 'pattern_prefix_only'
         elif rt.name in PRIM_FLOATS and rt.args.get('max_value') is not None:
             bad = (float(rt.args['max_value']) + abs(float(rt.args['max_value'])) + 1.0) if abs(rt.args['max_value']) < 1e300 else None
             tag = 'float_max'
